@@ -62,7 +62,7 @@ Definition lc_req_ok (data : option bytes) (len : nat) (c : connp) : bool :=
   negb (lc_dead (c_out_status c)) || lc_dead (c_out_status (fst (connp_req_data cb g data len c))).
 (* a response-side call *)
 Definition lc_res_ok (data : option bytes) (len : nat) (c : connp) : bool :=
-  (negb (c_in_status c =? c_HTP_STREAM_STOP) || (c_in_status (fst (connp_res_data cb g data len c)) =? c_HTP_STREAM_STOP)) &&
+  (negb (lc_dead (c_in_status c)) || lc_dead (c_in_status (fst (connp_res_data cb g data len c)))) &&
   lc_res_data data len c.
 
 Definition lc_close_in (c : connp) : connp :=
